@@ -6,6 +6,9 @@
 (*   mutate_field  change the array obtained from a getter in place (append / clear / item assign)   *)
 (*   mutate_arg    change the caller's own list after construction (append / clear / reverse)        *)
 (*   serialize     observe the bytes                                                                *)
+(*   other         obtain ANOTHER instance of the same class (deserialized from this instance's bytes   *)
+(*                 with one byte more / one byte less, or constructed from the same arguments): an        *)
+(*                 instance shares no state with its siblings                                             *)
 (* Apply is the model of what each action does: setattr and mutate_field are refused                 *)
 (* (AttributeError / a tuple has no such method) and NOTHING changes the instance.                   *)
 EXTENDS ProtoAst
@@ -32,6 +35,8 @@ Targets(code, o, path) ==
   LET RECURSIVE Cat(_)
       Cat(k) == IF k > Len(code) THEN <<>> ELSE InstrTargets(code[k], o, path) \o Cat(k + 1)
   IN  <<Act("setattr", path, "byte_size", "")>> \o Cat(1)
+\* actions that do not address a field of the instance at all
+Others == <<Act("serialize", <<>>, "", ""), Act("other", <<>>, "", "longer"), Act("other", <<>>, "", "shorter"), Act("other", <<>>, "", "construct")>>
 
 \* outcome of an action on an instance: the instance itself is never different afterwards
 Outcome(a) == CASE a.op = "setattr" -> "AttributeError"
